@@ -23,7 +23,7 @@ ASSUMPTIONS = [
     "for a refused cross-project operation only: error class, no foreign pair recorded, tables consistent and unchanged for pairs not named by the op",
 ]
 REQUIRED_LABELS = {
-    "quick": ["reconnect_after_disconnect", "list_overlap", "freed_slot_middle", "cross_project", "self_loop", "mixed_disconnect_list", "other_project_linked", "save_midway", "cross_project_mixed_request", "mixed_request_with_noop_pair", "modules_at_positions_above_256"],
+    "quick": ["reconnect_after_disconnect", "list_overlap", "freed_slot_middle", "cross_project", "self_loop", "mixed_disconnect_list", "other_project_linked", "save_midway", "cross_project_mixed_request", "mixed_request_with_noop_pair", "modules_at_positions_above_256", "operand_list_with_disconnects_reused"],
     "thorough": ["reconnect_after_disconnect", "list_overlap", "freed_slot_middle", "cross_project", "self_loop", "mixed_disconnect_list"],
 }
 
@@ -229,7 +229,7 @@ def op_list(draw, max_modules=8, max_ops=30, with_save_load=False, big=False):
     valid = [0] + list(range(base + 1, base + n0 + 1))
     ops = []
     k = draw(st.integers(1, max_ops))
-    kinds = ["rshift", "lshift", "rshift_dis", "lshift_dis", "rshift_list", "lshift_list", "chain_r", "chain_l", "mlist_r_dis", "mlist_r_list", "mlist_l_list", "chain_r_list", "chain_l_list", "connect", "connect_single", "x", "x", "xmix", "xmix", "xlink", "new"]
+    kinds = ["rshift", "lshift", "rshift_dis", "lshift_dis", "rshift_list", "lshift_list", "chain_r", "chain_l", "mlist_r_dis", "mlist_r_list", "mlist_l_list", "chain_r_list", "chain_l_list", "connect", "connect_single", "x", "x", "xmix", "xmix", "xlink", "new", "reuse", "reuse"]
     weights = kinds + ["rshift", "lshift", "rshift_dis", "lshift_dis", "connect", "connect", "rshift_list"]
     weights = weights + ["save", "save"]  # a user saves whenever they like; it must not disturb the tables
     if with_save_load:
@@ -264,6 +264,9 @@ def op_list(draw, max_modules=8, max_ops=30, with_save_load=False, big=False):
             ops.append(["connect_single", [idx(), draw(st.booleans())], [idx(), draw(st.booleans())]])
         elif kind == "x":
             ops.append(["x", draw(st.sampled_from(["rshift", "lshift", "connect_to", "connect_from", "connect_list", "dis"])), idx(), draw(st.integers(1, 2))])
+        elif kind == "reuse":
+            sp = draw(st.sampled_from(["rshift", "lshift", "connect_to", "connect_from"]))
+            ops.append(["reuse", sp, idxs(2, 3), [[i, draw(st.booleans())] for i in idxs(1, 3)]])
         elif kind == "xmix":
             sp = draw(st.sampled_from(["connect_to", "connect_from", "rshift", "lshift"]))
             own = [[i, draw(st.booleans()) if sp.startswith("connect") else False] for i in idxs(1, 3)]
@@ -284,7 +287,7 @@ def run_ops(ctx, case, prop="C07", on_save_load=None):
     """Execute a recipe, checking the model after every step.  Returns label set."""
     from rv.errors import ModuleOwnershipError
 
-    world = lm.World(n_initial=len(case["types"]), types=case["types"], base=case.get("base", 0))
+    world = lm.World(n_initial=len(case["types"]), types=case["types"], base=case.get("base", 0), version=case.get("sunvox_version"))
     E = set()
     ever_removed = set()
     labels = set()
@@ -359,6 +362,10 @@ def run_ops(ctx, case, prop="C07", on_save_load=None):
                 raise PropertyViolation(prop + ".save_changes_tables", "step %d: saving changed the link tables: %r -> %r" % (step, before, lm.tables(world.project)))
             labels.add("save_midway")
             continue
+        if op[0] == "reuse":
+            labels.add("operand_list_reused")
+            if any(d for _, d in op[3]):
+                labels.add("operand_list_with_disconnects_reused")
         prs = lm.pairs_of_op(op)
         for f, t, dis in prs:
             if f == t:
